@@ -19,7 +19,7 @@ def run(ctx):
     cl = codec.Classes()
     cl.check_driver()
     thorough = ctx.tier == "thorough"
-    idxs = codec.choose_classes(len(cl), rng, None if thorough else 300, ctx.seed + 2)
+    idxs = codec.choose_classes(len(cl), rng, None if thorough else 300, ctx.seed + 2, cl)
     per = 4 if thorough else 3
     insts = codec.gen_instances(cl, idxs, per, rng, big_strings=False)
     lines, meta, fails, disagreements = [], [], [], []
